@@ -85,7 +85,17 @@ package remote
 //@   modifies nothing
 //@   ensures result != nil && !old(result in fccstopped)
 
-//@ func (*FlowControlMap).Delete props C11, C05
+// The per-cluster schema map is keyed by the schema name exactly as given (names that differ only in case are different
+// schemas for validation and for the dispatch policies, so they must be different entries here) (C05, C06).
+//@ func (*FlowControlMap).Load props C05, C06
+//@   inline
+//@   modifies nothing
+//@   ensures [exact_key] result1 == smhas(&f.data, box(name)) && (!result1 ==> result == nil)
+//@ func (*FlowControlMap).Store props C05, C06
+//@   inline
+//@   modifies smap(&f.data)[box(name)]
+//@   ensures [exact_key] smhas(&f.data, box(name)) && smget(&f.data, box(name)) == fl
+//@ func (*FlowControlMap).Delete props C11, C05, C06
 //@   requires [typed] forall k ref :: {smhas(&f.data, k)} smhas(&f.data, k) ==> typeis(k, "string") && smget(&f.data, k) != nil
 //@   modifies smap(&f.data)[box(name)], fccstopped
 //@   ensures [removed] !smhas(&f.data, box(name))
@@ -102,10 +112,11 @@ package remote
 
 // The meter wrapper is what every request actually calls (it is what newMeterFlowControl returns): an acquire is forwarded
 // to the limiter exactly once and reports the limiter's answer, a release gives the slot back to the limiter exactly once.
-//@ func (*meterWrapper).TryAcquire props C05
+//@ func (*meterWrapper).TryAcquire props C05, C09
 //@   requires [wf] f.meter != nil
 //@   modifies *
 //@   ensures [answer_is_limiters] (result ==> held[old(f.FlowControl)] == old(held[f.FlowControl]) + 1 && acqfailed == old(acqfailed)) && (!result ==> held[old(f.FlowControl)] == old(held[f.FlowControl]) && acqfailed == old(acqfailed) + 1)
+//@   ensures [meter_counts_admitted_only] !result ==> f.meter.counter == old(f.meter.counter) && f.meter.uncounted == old(f.meter.uncounted) && f.meter.inflight == old(f.meter.inflight)
 //@   ensures [others_untouched] forall g ref :: {held[g]} g != old(f.FlowControl) ==> held[g] == old(held[g])
 //@   ensures [same_limiter] f.FlowControl == old(f.FlowControl)
 //@ func (*meterWrapper).Release props C05
@@ -187,15 +198,15 @@ package remote
 // A remote limiter is only ever set up from a limit item that carries a limit (C09, C16): a schema with a global strategy but
 // no global limit, or a server answer without any limit, is skipped before the remote wrapper is created -- the local limiter
 // stays in charge (without this the wrapper constructor dereferences a nil limit and the reconcile goroutine panics).
-//@ interface (RemoteFlowControlWrapper).Sync(w, limitItem) props C09, C16
+//@ interface (RemoteFlowControlWrapper).Sync(w, limitItem) props C09
 //@   requires [has_detail] limitItem.MaxRequestsInflight != nil || limitItem.TokenBucket != nil
 //@   modifies *
 //@ interface (FlowControlCache).EnableRemoteFlowControl(c) props C09
 //@   modifies fields("flowControlCache", "remote")
 //@ interface (LocalFlowControlWrapper).Config(l) props C09
 //@   pure
-//@ func (*reconcile).updateGlobalCuntFlowControls props C09, C16
+//@ func (*reconcile).updateGlobalCuntFlowControls props C09
 //@   modifies *
 //@   loop 0: invariant [nothing] true
-//@ func (*reconcile).updateFlowControls$1 props C09, C16
+//@ func (*reconcile).updateFlowControls$1 props C09
 //@   modifies *
